@@ -252,3 +252,92 @@ Proof.
   split; [|repeat split; reflexivity].
   eexists; eexists. split; [vm_compute; reflexivity | vm_compute; repeat split; try reflexivity; lia].
 Qed.
+
+(* ---------------------------------------------------------------- creation of the future, release of its reply address
+   MV.C07.RegModel: future.New -> ResourceController.Register -> futureProcess.Initialize as SEPARATE atomic steps —
+   publish in the registry (LoadOrStore), f.rc = rc, f.ref = id, arm the timer when timeout > 0 — executed by the creating
+   goroutine in the ORDER the machine is given ([reg_init o t], t = the timeout is positive), interleaved with the timer
+   goroutine (it may run immediately after it is armed: every timeout value, 1 ns included) and with any number of other
+   Close callers (the reply, a second reply, the user's Close) once New has returned. Close = CAS ; close(done) ; Stop ;
+   Unregister (deletes whatever is stored under the address; dereferences f.rc and f.ref). [source_order] is the order of
+   the unchanged source; tie T3 (harness/translate/c07reg) extracts the order of the tree under test on every run and the
+   generated RegInstance.v proves [order_ok] of it by vm_compute. *)
+From MV Require Import C07.RegModel C07.RegProofs.
+
+(* every order accepted by [order_ok] (before the timer is armed, and before New returns, the future is stored in the
+   registry — exactly once — and holds its controller and its reference), every timeout, every schedule: no goroutine
+   dereferences a nil controller / reference, every Unregister finds the future, the address is stored at most once and
+   removed at most once, and it is registered exactly from its publication to its release *)
+Theorem C07_reply_address_stored_once_removed_once : forall o t st, order_ok o = true -> reach (reg_init o t) st ->
+  nil_deref (fst st) = false /\ missed (fst st) = 0 /\
+  0 <= stores (fst st) <= 1 /\ 0 <= releases (fst st) <= 1 /\
+  (in_registry (fst st) = true <-> stores (fst st) = 1 /\ releases (fst st) = 0).
+Proof. exact reg_sound. Qed.
+Print Assumptions C07_reply_address_stored_once_removed_once.
+
+(* the order of the unchanged source (publish, then Initialize: rc, ref, timer), every timeout, every schedule: once the
+   ask is complete (the CAS was won) and the winner has got past its Unregister statement, the address is not
+   registered: it was stored once and removed once *)
+Theorem C07_reply_address_released : forall t st, reach (reg_init source_order t) st ->
+  fclosed (fst st) = true -> KT kpend (snd st) = 0 ->
+  in_registry (fst st) = false /\ stores (fst st) = 1 /\ releases (fst st) = 1.
+Proof. intros t st. exact (reg_released source_order t st source_order_ok). Qed.
+Print Assumptions C07_reply_address_released.
+
+(* ... and it is never registered again, whatever still runs afterwards (late replies, further Close calls, the
+   cancelled timer goroutine) *)
+Theorem C07_reply_address_never_registered_again : forall t st st', reach (reg_init source_order t) st ->
+  fclosed (fst st) = true -> KT kpend (snd st) = 0 -> KT kcreating (snd st) = 0 -> reach st st' ->
+  in_registry (fst st') = false /\ stores (fst st') = 1 /\ releases (fst st') = 1.
+Proof. intros t st st'. exact (reg_released_for_ever source_order t st st' source_order_ok). Qed.
+Print Assumptions C07_reply_address_never_registered_again.
+
+(* when nothing is running any more — New has returned, every Close call has returned, the timer goroutine has run or was
+   cancelled — the timer had been armed if the timeout is positive (so C07_no_hang applies), and a completed ask's address
+   is not registered *)
+Theorem C07_reply_address_released_quiescent : forall t st, reach (reg_init source_order t) st -> kquiescent st ->
+  created (fst st) = true /\ (t = true -> timer_armed (fst st) = true) /\
+  (fdone (fst st) = true -> in_registry (fst st) = false /\ stores (fst st) = 1 /\ releases (fst st) = 1).
+Proof. intros t st. exact (reg_released_quiescent source_order t st source_order_ok). Qed.
+Print Assumptions C07_reply_address_released_quiescent.
+
+(* the same for any source whose extracted creation order is accepted (tie T3 proves the hypothesis for the tree under
+   test by vm_compute on every run: C07_creation_order_source_facts in the generated RegInstance.v) *)
+Theorem C07_reply_address_released_at_source : forall o, order_ok o = true -> forall t st, reach (reg_init o t) st ->
+  (fclosed (fst st) = true -> KT kpend (snd st) = 0 ->
+   in_registry (fst st) = false /\ stores (fst st) = 1 /\ releases (fst st) = 1) /\
+  (fclosed (fst st) = true -> KT kpend (snd st) = 0 -> KT kcreating (snd st) = 0 -> forall st', reach st st' ->
+   in_registry (fst st') = false /\ stores (fst st') = 1 /\ releases (fst st') = 1).
+Proof.
+  intros o Ho t st Hr. split; [exact (reg_released o t st Ho Hr)|].
+  intros Hc Hz Hk st' Hr'. exact (reg_released_for_ever o t st st' Ho Hr Hc Hz Hk Hr').
+Qed.
+Print Assumptions C07_reply_address_released_at_source.
+
+(* "Initialize before publishing" (Register = Load ; Initialize ; LoadOrStore), a timeout shorter than the creation: the
+   timer fires between AfterFunc and LoadOrStore; its Close completes the ask and unregisters an address that is not
+   registered yet (missed = 1); Register then stores the completed future. Everything has returned, the ask is complete,
+   and its address stays registered for ever — the class of the seeded change C07-register-initialises-before-publishing *)
+Theorem C07_register_initialises_before_publishing_refuted :
+  exists st, reach (reg_init init_first_order true) st /\
+    fdone (fst st) = true /\ kquiescent st /\ snd st = [Some KEnv; None; None] /\
+    in_registry (fst st) = true /\ releases (fst st) = 0 /\ missed (fst st) = 1 /\ nil_deref (fst st) = false /\
+    forall st', reach st st' -> in_registry (fst st') = true /\ releases (fst st') = 0.
+Proof. exact init_first_leaks. Qed.
+Print Assumptions C07_register_initialises_before_publishing_refuted.
+
+(* the text before fix 2879fd7 (f.ref stored after the timer was armed), a timeout shorter than the creation: the timer's
+   Close reaches rc.Unregister(f.ref, f.ref) with a nil reference — nil dereference in the timer goroutine *)
+Theorem C07_ref_stored_after_timer_refuted :
+  exists st, reach (reg_init ref_after_timer_order true) st /\
+    nil_deref (fst st) = true /\ fdone (fst st) = true /\ in_registry (fst st) = true.
+Proof. exact ref_after_timer_crashes. Qed.
+Print Assumptions C07_ref_stored_after_timer_refuted.
+
+(* non-vacuity: the model's own description of the source denotes [source_order]; it is accepted, the two changed
+   orders are not; on the source order the earliest possible timer releases the address *)
+Example C07_example_creation_orders :
+  creation_order model_register model_initialize model_new = source_order /\
+  order_ok source_order = true /\ order_ok init_first_order = false /\ order_ok ref_after_timer_order = false /\
+  creation_order [RgLookup; RgInitialize; RgPublish] model_initialize model_new = init_first_order.
+Proof. repeat split; reflexivity. Qed.
